@@ -6,10 +6,24 @@ META = dict(
     engine="coq+hx_core",
     technique="Coq proof about the executable database model (undo commands, rollback) + differential correspondence of the extracted model "
               "with the real agdb on generated query histories with failing transactions/queries + order-normalised dump comparison on the implementation",
-    level_text="Machine-checked statements about the executable model of DbImpl's mutations, undo commands and rollback (coq/Props/C13.v): "
-               "C13_pinned_refuted_replace and C13_pinned_refuted_alias_steal (the two defects of the originally pinned tree as concrete failing "
-               "transactions: rollback stopped at a ReplaceKeyValue command; alias stealing recorded no inverse for the victim - both repaired by fix: commits), "
-               "and the Examples C13_fixed_restores_* that the repaired revision restores the state on the same transactions and on a query failing part-way. "
+    level_text="Machine-checked theorems about the executable model of DbImpl's mutations, undo commands and rollback (coq/Props/C13.v), all closed under the "
+               "global context. FULL (unbounded, every well-formed state, every revision with the two rollback fixes on, in particular /repo): "
+               "C13_step_inverse (for each of the 14 mutation primitives - node/edge insert, edge removal, isolated-node removal, the three alias "
+               "primitives, key-value insert / insert-or-replace / reserve / remove_keys / remove_all_values, index insert with back-fill / remove - the "
+               "commands it pushed, rolled back from the post-state or any observationally equal well-formed state, give a state observationally equal to "
+               "the pre-state; the re-inserted element gets its old id because the slot free list is LIFO - proved by a refinement of Graph.v's four slot "
+               "arrays to an abstract graph under an explicit array well-formedness invariant that every operation preserves), C13_undo_congruence, and "
+               "C13_rollback_restores (every finite sequence of primitives executed from a well-formed state with empty undo stack is undone by rollback: same "
+               "elements/ids/endpoints, property sets, aliases, index contents, node count, adjacency up to order, same degree counters and same ids handed out "
+               "afterwards; side conditions of the primitives are explicit: a removed/replaced indexed pair is listed in its index, insert_key_value inserts a "
+               "new key, insert_new_alias an unused alias on an alias-less element, capacity <= 2^63). PARTIAL: C13_exec_failure_restores_partial and "
+               "C13_transaction_failure_restores_partial lift this to Queries.exec / Queries.transaction (a failing query, or a failure injected at the end) "
+               "for InsertAliases, RemoveAliases, InsertIndex, RemoveIndex and all read-only queries; for InsertNodes, InsertEdges, InsertValues, Remove, "
+               "RemoveValues the decomposition into primitives needs database invariants (index consistency C11, fresh slots empty C09/C10) not proved here - "
+               "those queries are covered by the differential runs only. REFUTED for the earlier revisions (documented, repaired by fix: commits): "
+               "C13_pinned_refuted_replace (rollback stopped at a ReplaceKeyValue command), C13_pinned_refuted_alias_steal (alias stealing recorded no inverse "
+               "for the victim), C13_nodes_ids_alias_refuted (found during this proof: insert nodes with ids+aliases re-aliased an existing node without "
+               "inverse; fix: 883e1ef), each with the Example that the repaired revision restores the state on the same transaction. "
                "The model is tied to /repo on every run by differential execution of generated histories with failing transactions/queries, and the "
                "implementation-side oracle compares order-normalised full dumps before a failing transaction/query and after it.",
     design_ref="DESIGN.md §5 C13",
